@@ -229,6 +229,13 @@ func (ch *channel) parseModes(modes string, modeargs ...string) {
 				logging.Warn("Channel.ParseModes(): not enough arguments to "+
 					"process MODE %s %s%c", ch.name, modestr, m)
 			}
+		case 'b', 'e', 'I':
+			// List modes (bans, ban and invite exceptions) aren't tracked,
+			// but they come with an argument that must be consumed to keep
+			// the arguments of any later modes in the same line aligned.
+			if len(modeargs) != 0 {
+				modeargs = modeargs[1:]
+			}
 		default:
 			logging.Info("Channel.ParseModes(): unknown mode char %c", m)
 		}
